@@ -770,6 +770,7 @@ props.REGISTRY[C17.id] = C17()
 # =========================================================================== C15
 LOCK_PASSWORDS = [b"", b"a", b"hackme", b"p\xc3\xa4ssw\xc3\xb6rd\xe2\x9c\x93", b"\x00\xff", b"x" * 65, b"y" * 200,
                   b"alice", b" lead and trail ", "\U0001F511\u00e9".encode("utf-8") * 5]
+BOUNDARY_PASSWORDS = [b"k" * 63, b"k" * 64, b"k" * 65, bytes(range(1, 65)), b"trail ", "wide\u3000".encode("utf-8"), b" lead", b"tab\t", b"nl\n"]
 B64 = b"ABCDEFGHIJKLMNOPQRSTUVWXYZabcdefghijklmnopqrstuvwxyz0123456789+/"
 
 
@@ -796,8 +797,8 @@ def py_scrypt(pw, salt):
 
 class C15(KProp):
     id = "C15"
-    rule = ("cases: lock/unlock round trips for 10 (key, password, salt) triples (empty, 200-byte, non-UTF-8 and non-ASCII "
-            "passwords, all-zero/all-ff keys and salts); each locked string against other passwords; single-bit flips of the "
+    rule = ("cases: lock/unlock round trips for 19 (key, password, salt) triples (empty, 63/64/65/200-byte, non-UTF-8 and non-ASCII "
+            "passwords, passwords with leading/trailing white space, all-zero/all-ff keys and salts); each locked string against other passwords; single-bit flips of the "
             "84-byte blob (quick: one random bit of every byte, thorough: all 672) re-encoded; strings of every length 0..130, "
             "URL-safe alphabet, padding and non-canonical variants through EncodedSk::try_from and unlock; layout oracle: "
             "decoded string = 65 67 6B 30 || salt || ChaCha20-Poly1305(scrypt(pw, salt, 32768, 8, 1), nonce 0, ad = version) "
@@ -813,6 +814,9 @@ class C15(KProp):
         salts = [ctx.rbytes(32) for _ in range(8)] + [bytes(32), b"\xff" * 32]
         for i in range(10):
             triples.append((keys[i], LOCK_PASSWORDS[i], salts[i]))
+        # the HMAC block boundary (RFC 2104 hashes keys LONGER than 64 bytes) and white space at the ends of a password
+        for pw in BOUNDARY_PASSWORDS:
+            triples.append((ctx.rbytes(32), pw, ctx.rbytes(32)))
         locks = [KCase("sk_lock", sk=k, pw=p, salt=s, tags=["lock"]) for k, p, s in triples]
         run_impl_k(locks)
         # layout oracle: scrypt by Python, AEAD by the library's seal (tied to RFC 8439 by C19)
@@ -899,7 +903,9 @@ class C15(KProp):
 
 
 # =========================================================================== C16 (in-process part)
-CH_PASSWORDS = [b"", b"a", "p\u00e4ss \u2713 \U0001F511".encode("utf-8"), b"L" * 100, b"hackme", b"A"]
+# passwords whose ends are white space: nothing may trim them (they travel through environment variables in the CLI)
+WS_PASSWORDS = [b"trail ", "wide\u3000".encode("utf-8"), b" lead", b"tab\t", b" ", "\u00a0nbsp\u00a0".encode("utf-8"), b"two  "]
+CH_PASSWORDS = [b"", b"a", "p\u00e4ss \u2713 \U0001F511".encode("utf-8"), b"L" * 100, b"hackme", b"A", b"k" * 64] + WS_PASSWORDS
 
 
 def inproc_histories(self, ctx, nh):
@@ -1117,14 +1123,15 @@ def secret_forms(sk):
 
 
 # =========================================================================== C16
-PROC_PASSWORDS = [b"", b"a", "p\u00e4ss \u2713 \U0001F511".encode("utf-8"), b"L" * 100]
+PROC_PASSWORDS = [b"", b"a", "p\u00e4ss \u2713 \U0001F511".encode("utf-8"), b"L" * 100] + WS_PASSWORDS
 
 
 class C16(ProcProp):
     id = "C16"
     rule = ("cases: in-process histories sk_lock -> 1..4 x (unlock, lock under a new password and salt) compared with the "
             "model's change_pass_seq, newest string/newest password, every earlier password; process histories key generate "
-            "-> 1..4 key change-pass (KESTREL_PASSWORD / KESTREL_NEW_PASSWORD over '', 'a', unicode, 100-byte) interleaved "
+            "-> 1..4 key change-pass (KESTREL_PASSWORD / KESTREL_NEW_PASSWORD over '', 'a', unicode, 100-byte, and passwords with "
+            "leading / trailing space, TAB, U+00A0, U+3000 - each used as a new password) interleaved "
             "with extract-pub, a wrong old password, and an encrypt/decrypt with the re-locked key; runs with an injected "
             "random stream compared byte for byte with lock_private_key/serialize_key; secrets searched in every output; "
             "non-trivial = all")
@@ -1146,10 +1153,14 @@ class C16(ProcProp):
             for h in range(nh):
                 n = 1 + h % 4
                 pws = [rng.choice(PROC_PASSWORDS) for _ in range(n + 1)]
+                # every white-space password is used as a NEW password and as a generation password in the first histories
+                pws[1] = WS_PASSWORDS[h % len(WS_PASSWORDS)]
+                if h % 2 == 1:
+                    pws[0] = WS_PASSWORDS[(h // 2 + 3) % len(WS_PASSWORDS)]
                 if h % 4 == 3:
                     pws[-1] = pws[0]
                 plans.append({"h": h, "name": rng.choice(["alice", "Bob B", "k\u00e9y \U0001F511", "n" * 128]) , "pws": pws,
-                              "wrong": rng.choice([b"wrong", b"A", b" "]), "rt": ctx.thorough() or h < 3,
+                              "wrong": rng.choice([b"wrong", b"Wrong ", b"w"]), "rt": ctx.thorough() or h < 3,
                               "inject": (h % 3 == 2), "rand": [ctx.rbytes(64)] + [ctx.rbytes(32) for _ in range(n)],
                               "pt": ctx.rbytes(rng.choice([0, 10, 70000]))})
             recs = self.pmap(lambda pl: self.one_history(w, pl), plans)
@@ -1310,7 +1321,8 @@ class C14(ProcProp):
     id = "C14"
     rule = ("cases: histories of 1..4 'key generate -o F' (distinct names incl. unicode/128-byte/look-alike names; passwords '', "
             "'a', unicode, 100-byte) over initial states of F {absent, empty, one key with / without trailing newline, CRLF "
-            "line ends, with comments, two keys, blank lines only}; after every run: exit 0, previous bytes are a prefix, the "
+            "line ends, with comments, two keys, blank lines only, a symbolic link (absolute / relative) to a keyring of one / two "
+            "keys, a dangling symbolic link}; after every run: exit 0, previous bytes are a prefix, the "
             "file parses (driver kr_parse), all earlier and all generated entries are present in order, every generated key "
             "unlocks with its password to the key whose public key is the PublicKey line; encrypt/decrypt by name; "
             "non-trivial = every run")
@@ -1323,7 +1335,10 @@ class C14(ProcProp):
         com = b"# my keyring\n\n[Key]\n# the first key\nName = old1\nPublicKey = " + ks[0][2] + b"\n\n# end of file\n"
         return [("absent", None, []), ("empty", b"", []), ("one-key-newline", b1, [b"old1"]), ("one-key-no-newline", b1[:-1], [b"old1"]),
                 ("crlf", b1.replace(b"\n", b"\r\n"), [b"old1"]), ("comments", com, [b"old1"]), ("two-keys", b1 + b"\n" + b2, [b"old1", b"old2"]),
-                ("blank-lines", b"\n\n", [])]
+                ("blank-lines", b"\n\n", []),
+                # F is a symbolic link: the keyring it points to is the file that must keep its keys
+                ("symlink-to-one-key", b1, [b"old1"]), ("symlink-to-two-keys", b1 + b"\n" + b2, [b"old1", b"old2"]),
+                ("symlink-relative-to-one-key", b1, [b"old1"]), ("symlink-dangling", None, [])]
 
     def explore(self, ctx):
         rng = ctx.rng
@@ -1352,14 +1367,21 @@ class C14(ProcProp):
     def one_history(self, w, pl):
         f = "kr%d.txt" % pl["h"]
         init = pl["state"][1]
-        if init is not None:
+        if pl["state"][0].startswith("symlink"):
+            # the real keyring lives elsewhere; F only points to it (reads below follow the link)
+            os.makedirs(w.p("real"), exist_ok=True)
+            target = os.path.join("real", "keyring%d.txt" % pl["h"])
+            if init is not None:
+                w.write(target, init)
+            os.symlink(target if "relative" in pl["state"][0] else w.p(target), w.p(f))
+        elif init is not None:
             w.write(f, init)
         snaps, runs = [init], []
         for nm, pw in zip(pl["names"], pl["pws"]):
             r = gen_key(w, nm, pw, outfile=f)
             runs.append(r)
             snaps.append(w.read(f))
-        rec = {"plan": pl, "snaps": snaps, "runs": runs}
+        rec = {"plan": pl, "snaps": snaps, "runs": runs, "still_link": os.path.islink(w.p(f))}
         if pl["rt"] and all(r.rc == 0 for r in runs):
             h = pl["h"]
             a, b = pl["names"][0], pl["names"][-1]
@@ -1415,6 +1437,9 @@ class C14(ProcProp):
                             continue
                         un_where.append((rec, sc, j, pubs[k0 + j]))
                         un_ops.append("sk_unlock %s %s" % (hexs(privs[k0 + j]), hexs(pw)))
+            if pl["state"][0].startswith("symlink") and pl["state"][0] != "symlink-dangling":
+                self.judge(ctx, rec["still_link"], sc, runs, "F is still the symbolic link to the keyring (the keyring itself was extended)",
+                           "F is no longer a symbolic link")
             if "rt" in rec:
                 e, d, out = rec["rt"]
                 self.count(ctx, "encrypt-decrypt-by-name")
@@ -1525,6 +1550,13 @@ class FileWorld(World):
         self.write("kr_first", pubonly("alice") + b"\n" + B["bob"] + b"\n" + B["carol"])
         self.write("kr_last", B["carol"] + b"\n" + B["bob"] + b"\n# the sender comes last\n" + pubonly("alice"))
         self.write("kr_absent", B["bob"] + b"\n" + B["carol"])
+        # a contact whose PublicKey is well-formed base64 of 36 bytes with a WRONG checksum (the parser accepts it; it is
+        # neither sender nor recipient), listed before / after the sender
+        raw = ctx.rbytes(32)
+        ck = hashlib.sha256(raw).digest()[:4]
+        mallory = key_block(b"mallory", base64.b64encode(raw + bytes([ck[0] ^ 0x55]) + ck[1:]))
+        self.write("kr_badck_before", mallory + b"\n" + pubonly("alice") + b"\n" + B["bob"] + b"\n" + B["carol"])
+        self.write("kr_badck_after", B["bob"] + b"\n" + pubonly("alice") + b"\n" + mallory + b"\n" + B["carol"])
         self.P = {"small": ctx.rbytes(1000), "big": ctx.rbytes(CHUNK + 1234), "empty": b""}
         self.passpw = "p\u00e4ss".encode("utf-8")
         for k, v in self.P.items():
@@ -1551,7 +1583,8 @@ class C12(ProcProp):
             "decrypt over the wirings {file argument | stdin} x {-o | stdout} x {-k | KESTREL_KEYRING} x {--long v | -s v | "
             "--long=v | -long v} x {command | alias} (argument before/after the options) for inputs {valid 1000 B, valid 2 chunks, "
             "empty plaintext, damaged first chunk, damaged second chunk, wrong recipient key, wrong password, file of the other "
-            "mode} and keyrings {sender first, last, absent}; encrypt / password encrypt over the same wirings with an injected "
+            "mode} and keyrings {sender first, last, absent, a bad-checksum contact before / after the sender}; successful runs with "
+            "-o onto an absent path and onto an existing file (file bytes must equal the output, also for the empty plaintext); encrypt / password encrypt over the same wirings with an injected "
             "random stream (byte-identical output) and with real randomness, each decrypted; quick = base wiring + 20 random "
             "wirings per (input, keyring) group, thorough = all 64; non-trivial = every run")
     assumptions = ["the CLI process is judged by direct oracles only (no CLI model yet); model_expect is the hook for it",
@@ -1577,22 +1610,33 @@ class C12(ProcProp):
                       ("bad-chunk1", "ct_bad1", "bob", b"", False), ("bad-chunk2", "ct_bad2", "bob", P["big"][:CHUNK], False),
                       ("wrong-recipient", "ct_small", "carol", b"", False), ("password-file", "pct_small", "bob", b"", False)]
             gid = 0
+            def pres(iname, c):
+                """state of the -o path before the run: successful runs also write onto an existing file (it must be replaced
+                by the plaintext, even an empty one); failing runs are C13's business and start from an absent path"""
+                if c["out"] != "o" or not iname.startswith("valid"):
+                    return ["absent"]
+                if iname == "valid-empty":
+                    return ["absent", "sentinel"]
+                return [rng.choice(["absent", "sentinel"])]
             for (iname, f, to, deliver, ok) in inputs:
-                for kr in ("kr_first", "kr_last", "kr_absent"):
+                for kr in ("kr_first", "kr_last", "kr_absent") + (("kr_badck_before", "kr_badck_after") if ok else ()):
                     gid += 1
                     for c in pickw(wir):
-                        jobs.append({"g": gid, "group": "decrypt %s %s" % (iname, kr), "cmd": "decrypt", "cfg": c, "in": f, "to": to,
-                                     "kr": kr, "pw": w.pw[to], "deliver": deliver, "ok": ok, "plain": P.get(iname.split("-")[1]) if ok else None,
-                                     "sender": ("name" if kr != "kr_absent" else "unknown") if ok else None})
+                        for pre in pres(iname, c):
+                            jobs.append({"g": gid, "group": "decrypt %s %s" % (iname, kr), "cmd": "decrypt", "cfg": c, "in": f, "to": to, "pre": pre,
+                                         "kr": kr, "pw": w.pw[to], "deliver": deliver, "ok": ok, "plain": P.get(iname.split("-")[1]) if ok else None,
+                                         "sender": ("name" if kr != "kr_absent" else "unknown") if ok else None})
             # ---- password decryption
             pin = [("valid-small", "pct_small", w.passpw, P["small"], True), ("valid-big", "pct_big", w.passpw, P["big"], True),
+                   ("valid-empty", "pct_empty", w.passpw, b"", True),
                    ("bad-chunk1", "pct_bad1", w.passpw, b"", False), ("bad-chunk2", "pct_bad2", w.passpw, P["big"][:CHUNK], False),
                    ("wrong-password", "pct_small", b"other", b"", False), ("key-file", "ct_small", w.passpw, b"", False)]
             for (iname, f, pw, deliver, ok) in pin:
                 gid += 1
                 for c in pickw(wirp):
-                    jobs.append({"g": gid, "group": "password decrypt %s" % iname, "cmd": "pass-decrypt", "cfg": c, "in": f, "to": None,
-                                 "kr": None, "pw": pw, "deliver": deliver, "ok": ok, "sender": None})
+                    for pre in pres(iname, c):
+                        jobs.append({"g": gid, "group": "password decrypt %s" % iname, "cmd": "pass-decrypt", "cfg": c, "in": f, "to": None, "pre": pre,
+                                     "kr": None, "pw": pw, "deliver": deliver, "ok": ok, "sender": None})
             # ---- encryption (injected random stream: identical bytes; and real randomness)
             rnd = ctx.rbytes(64)
             for pt in ("small", "big"):
@@ -1626,12 +1670,16 @@ class C12(ProcProp):
 
     def one(self, w, j):
         out = "out_%d" % j["i"]
+        if j["cmd"] in ("encrypt", "pass-encrypt") and j["ok"] and j["cfg"]["out"] == "o" and j["i"] % 2:
+            j["pre"] = "sentinel"
+        if j.get("pre") == "sentinel":
+            w.write(out, SENTINEL)
         env0 = {"KESTREL_VERIF_RANDOM": j["rand"].hex()} if j.get("rand") else None
         argv, env, stdin = wire(j["cmd"], j["cfg"], j["in"], out, to=j.get("to"), frm=j.get("from"), keyring=j.get("kr"), pw=j["pw"], extra_env=env0)
         r = w.run(argv, env=env, stdin=stdin)
         filed = w.read(out)
         delivered = (filed if filed is not None else b"") if j["cfg"]["out"] == "o" else r.out
-        res = {"run": r, "delivered": delivered, "file_created": filed is not None,
+        res = {"run": r, "delivered": delivered, "file_created": filed is not None, "file_bytes": filed,
                "stray_stdout": r.out if j["cfg"]["out"] == "o" else b""}
         if j["cmd"] in ("encrypt", "pass-encrypt") and j["ok"] and r.rc == 0:
             # decrypt what was produced, with a fixed wiring
@@ -1685,6 +1733,16 @@ class C12(ProcProp):
                     self.judge(ctx, any(l.startswith("Error: ") for l in run.errtext().splitlines()) or "Error: " in run.errtext(), sc, [run],
                                "a failing run prints an Error: line on stderr", "stderr %r" % run.errtext()[-200:])
                 self.judge(ctx, r["stray_stdout"] == b"", sc, [run], "with -o nothing is written to stdout", "stdout %r" % r["stray_stdout"][:60])
+                if run.rc == 0 and j["cfg"]["out"] == "o":
+                    # the status alone is not the result: the file named by -o must now BE the output
+                    self.count(ctx, "o-path-before-success:" + j.get("pre", "absent"))
+                    want = j["deliver"] if dec else None
+                    got = r["file_bytes"]
+                    okf = got is not None and (got == want if dec else (not got.startswith(SENTINEL[:20]) and len(got) > 0))
+                    self.judge(ctx, okf, sc + ", -o path %s before the run" % j.get("pre", "absent"), [run],
+                               "after exit 0 the -o file exists and holds exactly the output (%s), whatever was there before"
+                               % ("%d plaintext bytes" % len(want) if dec else "the ciphertext"),
+                               "absent" if got is None else "%d bytes: %r..." % (len(got), got[:50]))
                 if dec and j.get("sender") and run.rc == 0:
                     if j["sender"] == "name":
                         want = "Success. File from: alice"
